@@ -9,12 +9,14 @@ Import ListNotations.
 Lemma hb_adjacent tr i k : hb tr i k -> k = S i ->
   (exists t o1 o2, nth_error tr i = Some (t, o1) /\ nth_error tr k = Some (t, o2)) \/
   (exists t l, nth_error tr i = Some (t, Rel l)) \/
-  (exists t c g, nth_error tr i = Some (t, Fork c g)).
+  (exists t c g, nth_error tr i = Some (t, Fork c g)) \/
+  (exists t c, nth_error tr i = Some (t, Post c)).
 Proof.
-  induction 1 as [i j t o1 o2 Hlt H1 H2 | i j t1 t2 l Hlt H1 H2 | i j t c g o Hlt H1 H2 | i j k Hij IH1 Hjk IH2]; intros Hk.
+  induction 1 as [i j t o1 o2 Hlt H1 H2 | i j t1 t2 l Hlt H1 H2 | i j t c g o Hlt H1 H2 | i j t1 t2 c Hlt H1 H2 | i j k Hij IH1 Hjk IH2]; intros Hk.
   - left. exists t, o1, o2. split; assumption.
   - right; left. exists t1, l. assumption.
-  - right; right. exists t, c, g. assumption.
+  - right; right; left. exists t, c, g. assumption.
+  - right; right; right. exists t1, c. assumption.
   - exfalso. apply hb_lt in Hij. apply hb_lt in Hjk. lia.
 Qed.
 
@@ -49,6 +51,10 @@ Lemma acqs_no_fork t L j t' c g : nth_error (acqs t L) j = Some (t', Fork c g) -
 Proof.
   intros H. apply nth_error_In in H. unfold acqs in H. apply in_map_iff in H. destruct H as [l [E _]]. discriminate.
 Qed.
+Lemma acqs_only_acq t L j e : nth_error (acqs t L) j = Some e -> exists l, e = (t, Acq l).
+Proof.
+  intros H. apply nth_error_In in H. unfold acqs in H. apply in_map_iff in H. destruct H as [l [E _]]. exists l. symmetry. exact E.
+Qed.
 
 Definition slock_eq_dec (a b : slock) : {a = b} + {a <> b}.
 Proof. decide equality; apply N.eq_dec. Defined.
@@ -70,6 +76,8 @@ Variables (a b : entry) (sa sb : nat).
 Hypothesis Ha : nth_error (entries T) sa = Some a.
 Hypothesis Hb : nth_error (entries T) sb = Some b.
 Hypothesis Hbad : pair_ok (singles T) a b = false.
+Hypothesis Haa : e_after a = [].
+Hypothesis Hab : e_after b = [].
 
 Let f := e_fld a.
 Let x : loc := (1%N, f).
@@ -85,6 +93,7 @@ Lemma bad_facts :
   may_conc (singles T) a b = true /\ share a b = false.
 Proof.
   pose proof Hbad as Hp. unfold pair_ok in Hp.
+  apply orb_false_iff in Hp. destruct Hp as [Hp _].
   apply orb_false_iff in Hp. destruct Hp as [Hp Hsh].
   apply orb_false_iff in Hp. destruct Hp as [Hp Hmc].
   apply orb_false_iff in Hp. destruct Hp as [Hp Hib].
@@ -137,6 +146,21 @@ Proof.
     + destruct d; discriminate.
 Qed.
 
+Lemma tr_shape j e : nth_error tr j = Some e ->
+  (exists t l, e = (t, Acq l)) \/ (exists t k y site, e = (t, Acc k y site)).
+Proof.
+  intros H. unfold tr, w_tr in H. destruct (Nat.lt_ge_cases j n) as [Hlt | Hge].
+  - left. rewrite nth_error_app1 in H by exact Hlt. unfold pre in H.
+    destruct (Nat.lt_ge_cases j (length (acqs 1%N La))) as [H1 | H1].
+    + rewrite nth_error_app1 in H by exact H1. destruct (acqs_only_acq _ _ _ _ H) as [l E]. eauto.
+    + rewrite nth_error_app2 in H by exact H1. destruct (acqs_only_acq _ _ _ _ H) as [l E]. eauto.
+  - right. rewrite nth_error_app2 in H by exact Hge. fold n in H.
+    destruct (j - n) as [|[|d]]; cbn in H.
+    + inversion H. eauto.
+    + inversion H. eauto.
+    + destruct d; discriminate.
+Qed.
+
 Lemma tr_n : nth_error tr n = Some (1%N, Acc (e_kind a) x sa).
 Proof. unfold tr, w_tr. rewrite nth_error_app2 by (unfold n; lia). fold n. rewrite Nat.sub_diag. reflexivity. Qed.
 Lemma tr_Sn : nth_error tr (S n) = Some (2%N, Acc (e_kind b) x sb).
@@ -144,7 +168,7 @@ Proof. unfold tr, w_tr. rewrite nth_error_app2 by (unfold n; lia). fold n. repla
 
 Lemma tr_wf : wf_trace tr.
 Proof.
-  destruct pre_state as (s & Hr & _). split.
+  destruct pre_state as (s & Hr & _). split; [|split].
   - exists s. unfold tr, w_tr. rewrite run_app, Hr. reflexivity.
   - intros i t c g H. exfalso. unfold tr, w_tr in H. destruct (Nat.lt_ge_cases i n) as [Hlt | Hge].
     + rewrite nth_error_app1 in H by exact Hlt. unfold pre in H.
@@ -153,6 +177,7 @@ Proof.
       * rewrite nth_error_app2 in H by exact H1. eapply acqs_no_fork; exact H.
     + rewrite nth_error_app2 in H by exact Hge. fold n in H.
       destruct (i - n) as [|[|d]]; cbn in H; try discriminate. destruct d; discriminate.
+  - intros q t c H. exfalso. destruct (tr_shape _ _ H) as [(t0 & l & E) | (t0 & k & y & site & E)]; discriminate.
 Qed.
 
 Lemma state_n : exists s, state_at tr n = Some s /\ (forall l, In l La -> s l = Some 1%N) /\ (forall l, In l Lb -> s l = Some 2%N).
@@ -179,12 +204,16 @@ Lemma tr_conforms : conforms T w_cls tr.
 Proof.
   destruct bad_facts as (Hfb & _). split.
   - intros j t k y site H. destruct (tr_acc _ _ _ _ _ H) as [(Hj & Ht & Hk & Hy & Hs) | (Hj & Ht & Hk & Hy & Hs)]; subst j t k y site.
-    + exists a. repeat split; try assumption; try reflexivity.
-      intros s Hs. destruct state_n as (st & Hst & H1 & _). exists st. split; [exact Hst|].
-      apply H1. unfold La. apply in_map. apply nodup_In. exact Hs.
-    + exists b. repeat split; try assumption; try reflexivity.
-      intros s Hs. destruct state_Sn as (st & Hst & _ & H2). exists st. split; [exact Hst|].
-      apply H2. unfold Lb. apply in_map. apply nodup_In. exact Hs.
+    + exists a. split; [assumption|]. split; [reflexivity|]. split; [reflexivity|]. split; [assumption|]. split; [|split].
+      * intros s Hs. destruct state_n as (st & Hst & H1 & _). exists st. split; [exact Hst|].
+        apply H1. unfold La. apply in_map. apply nodup_In. exact Hs.
+      * intros k _ p t' Hp. exfalso. destruct (tr_shape _ _ Hp) as [(t0 & l & E) | (t0 & k0 & y & site & E)]; discriminate.
+      * intros k Hk. rewrite Haa in Hk. destruct Hk.
+    + exists b. split; [assumption|]. split; [assumption|]. split; [reflexivity|]. split; [assumption|]. split; [|split].
+      * intros s Hs. destruct state_Sn as (st & Hst & _ & H2). exists st. split; [exact Hst|].
+        apply H2. unfold Lb. apply in_map. apply nodup_In. exact Hs.
+      * intros k _ p t' Hp. exfalso. destruct (tr_shape _ _ Hp) as [(t0 & l & E) | (t0 & k0 & y & site & E)]; discriminate.
+      * intros k Hk. rewrite Hab in Hk. destruct Hk.
   - intros t t' Hin Heq. unfold w_cls in *.
     pose proof (fresh_cls_notin (singles T)) as Hfr.
     destruct (N.eqb t 1) eqn:E1; destruct (N.eqb t' 1) eqn:E1'.
@@ -219,8 +248,9 @@ Proof.
   { unfold both_rd in Hrd. destruct (e_kind a); [|left; reflexivity]. destruct (e_kind b); [cbn in Hrd; discriminate | right; reflexivity]. }
   assert (Hhb : hb tr n (S n)).
   { eapply (Hrf n (S n) 1%N 2%N); [lia | exact tr_n | exact tr_Sn | discriminate | exact Hw | exact I]. }
-  destruct (hb_adjacent _ _ _ Hhb eq_refl) as [(t & o1 & o2 & H1 & H2) | [(t & l & H1) | (t & c & g & H1)]].
+  destruct (hb_adjacent _ _ _ Hhb eq_refl) as [(t & o1 & o2 & H1 & H2) | [(t & l & H1) | [(t & c & g & H1) | (t & c & H1)]]].
   - rewrite tr_n in H1. rewrite tr_Sn in H2. inversion H1; inversion H2; subst. discriminate.
+  - rewrite tr_n in H1. discriminate.
   - rewrite tr_n in H1. discriminate.
   - rewrite tr_n in H1. discriminate.
 Qed.
@@ -234,18 +264,26 @@ Proof.
   - destruct (IH H) as (x & Hx & Hf). exists x. split; [right; exact Hx | exact Hf].
 Qed.
 
+(** a pair the check rejects, neither side of which relies on an observed signal *)
+Definition plain_bad_pair (T : table) : bool :=
+  existsb (fun a => existsb (fun b => negb (pair_ok (singles T) a b) &&
+     match e_after a, e_after b with [], [] => true | _, _ => false end) (entries T)) (entries T).
+
 (** the converse of [lockset_sound] *)
 Theorem lockset_tight (T : table) :
-  lockset_ok T = false ->
+  plain_bad_pair T = true ->
   exists (cls_of : tid -> N) (tr : trace), wf_trace tr /\ conforms T cls_of tr /\ safe_init T tr /\ ~ race_free tr.
 Proof.
-  intros H. unfold lockset_ok, lockset_ok_except in H.
-  apply forallb_false_exists in H. destruct H as (a & Ha & H).
-  apply forallb_false_exists in H. destruct H as (b & Hb & Hp).
-  unfold no_waiver in Hp. rewrite !orb_false_r in Hp.
+  intros H. unfold plain_bad_pair in H.
+  apply existsb_exists in H. destruct H as (a & Ha & H).
+  apply existsb_exists in H. destruct H as (b & Hb & H).
+  apply andb_true_iff in H. destruct H as [Hp Haft]. apply negb_true_iff in Hp.
+  assert (Haa : e_after a = []) by (destruct (e_after a); [reflexivity | discriminate]).
+  assert (Hab : e_after b = []) by (rewrite Haa in Haft; destruct (e_after b); [reflexivity | discriminate]).
   apply In_nth_error in Ha. destruct Ha as [sa Ha]. apply In_nth_error in Hb. destruct Hb as [sb Hb].
   assert (Hmc : may_conc (singles T) a b = true).
   { pose proof Hp as Hp'. unfold pair_ok in Hp'.
+    apply orb_false_iff in Hp'. destruct Hp' as [Hp' _].
     apply orb_false_iff in Hp'. destruct Hp' as [Hp' _]. apply orb_false_iff in Hp'. destruct Hp' as [_ Hmc].
     apply negb_false_iff in Hmc. exact Hmc. }
   unfold may_conc in Hmc. apply existsb_exists in Hmc. destruct Hmc as (ca & Hca & Hmc).
